@@ -41,6 +41,15 @@ def make_wl(rng, k):
         opts.update(annotated=True, data_type="nanopore")
         opts.pop("model_strategy", None)
         opts.pop("extra", None)
+    if k is not None and k % 8 == 7:
+        # history of the output folder: an earlier run with one chromosome MORE was killed right before it merged its per-chromosome
+        # files; the run under test (--force) must report its own chromosomes only
+        spec["n_chr"] = min(3, max(2, spec.get("n_chr", 2)))
+        opts["pre"] = {"spec": {"seed": 900 + k, "n_chr": spec["n_chr"] + 1, "genes_per_chr": 2, "reads_per_iso": 3, "novel": 1,
+                                "paralogs": 0, "chr_naming": spec.get("chr_naming", 0)},
+                       "opts": {"threads": 1, "annotated": True},
+                       "fault": {"kind": "kill", "label_rx": r":open:w:.*_processed$", "nth": -1, "phase": "after"}}
+        opts["no_fault"] = True
     opts.pop("threads_hint", None)
     return spec, opts
 
